@@ -53,13 +53,30 @@ func (r *FnRun) execCall(st *State, x *ssa.Call) *State {
 				}
 				env := r.rootEnvFor(nst)
 				env.preferNames = true // source variables denote their current values
-				g := env.EvalBool(ma.Cl.E)
 				det := fmt.Sprintf("call%d", ma.N)
 				if ma.Callee != "" {
 					det = fmt.Sprintf("%s.%d", ma.Callee, ma.N)
 				}
+				if ma.Apply != nil {
+					p, q := env.applyLemma(ma.Apply, true)
+					if ma.When != nil {
+						c := env.EvalBool(ma.When)
+						if p != nil {
+							p = r.tb().Implies(c, p)
+						}
+						q = r.tb().Implies(c, q)
+					}
+					if p != nil {
+						r.oblige(nst, "apply", det+":"+ma.Apply.Name, p, x.Pos(), "premise of "+ma.Cl.Text, nil)
+					}
+					r.assume(nst, q)
+					continue
+				}
+				g := env.EvalBool(ma.Cl.E)
 				r.oblige(nst, "assert", det, g, x.Pos(), "intermediate assertion: "+ma.Cl.Text, ma.Cl.Tags)
-				r.assume(nst, g)
+				if !ma.CheckOnly {
+					r.assume(nst, g)
+				}
 			}
 		}
 	}
